@@ -22,7 +22,9 @@ META = {
             "the guarded norm is the euclidean norm around x and its directional derivative is the dot product with the gradient JAX returns (x/|x|); "
             "C45_safe_norm_zero: at is_zero the value is 0, the returned gradient is exactly (0,0,0), linalg.norm is evaluated at (1,1,1) where it is differentiable, "
             "and strictly inside the threshold box 0 is the derivative in every direction; C45_naive_norm_singular: the unguarded sqrt(t t) has no derivative at 0 "
-            "(what the inner where protects).  TIED: the Gallina definitions are evaluated at binary64 inside Coq and compared (2^-30) with the working tree's "
+            "(what the inner where protects).  KNOWN finding C45-F2 (consequence of the proved (0,0,0) gradient): where an argument of math.norm is exactly zero in a smooth "
+            "state (angular velocity of a free/ball joint, ball joint at its spring reference) the term of the gradient through the norm is dropped; two fixed replays "
+            "run in both tiers under that signature, their off-zero neighbours must agree with finite differences like every other state.  TIED: the Gallina definitions are evaluated at binary64 inside Coq and compared (2^-30) with the working tree's "
             "_cylinder, _cylinder_grad, math.norm and its jax.grad, normalize_with_norm, safe_div and its jax.grad on points of every region, guard thresholds and "
             "zeros.  ORACLE on implementation output (support, no theorem): the custom rule's tangent and jax.grad of the cylinder SDF against central finite "
             "differences of the primal; all guarded gradients finite; jax reverse- and forward-mode Jacobians of random linear probes of mjx.forward (qacc) and "
@@ -59,6 +61,18 @@ PIPE_MODELS = [
      <body pos="0.2 0 0"><joint name="h" type="hinge" axis="0 1 0" damping="0.2" armature="0.01"/><geom size="0.06" pos="0.1 0 0"/>
        <body name="camframe" pos="0.1 0 0.05"><camera name="eye"/><body name="tip2" pos="0 0 0.1"><site name="s2"/></body></body></body></body></worldbody>
      <actuator><motor joint="h" gear="0.5"/></actuator></mujoco>""", "nq": 8, "nv": 7, "nu": 1, "quat": [3]},
+]
+
+# fixed replays of KNOWN finding C45-F2 (both tiers): states in which an argument of math.norm is EXACTLY zero (angular velocity of a free body at
+# rest in zero gravity; ball joint at its spring reference).  The second state of each job is the same configuration moved off the zero: there AD
+# must agree with finite differences like everywhere else.
+KNOWN_F2 = [
+    {"name": "free_body_at_rest", "fn": "step", "xml": "<mujoco><option timestep='0.01' gravity='0 0 0'/><worldbody><body pos='0 0 1'><freejoint/>"
+     "<geom type='capsule' size='0.05 0.15'/></body></worldbody></mujoco>",
+     "states": [{"qpos": [0, 0, 1, 1, 0, 0, 0], "qvel": [0, 0, 0, 0, 0, 0], "ctrl": []}, {"qpos": [0, 0, 1, 1, 0, 0, 0], "qvel": [0, 0, 0, 1e-3, 0, 0], "ctrl": []}]},
+    {"name": "ball_spring_at_reference", "fn": "forward", "xml": "<mujoco><option timestep='0.01' gravity='0 0 -9.81'/><worldbody><body pos='0 0 1'>"
+     "<joint name='b' type='ball' stiffness='5' damping='0.1'/><geom type='capsule' fromto='0 0 0 0.3 0 0' size='0.03'/></body></worldbody></mujoco>",
+     "states": [{"qpos": [1, 0, 0, 0], "qvel": [0.0, 0.0, 0.0], "ctrl": []}, {"qpos": [0.9999875, 0.005, 0, 0], "qvel": [0.0, 0.0, 0.0], "ctrl": []}]},
 ]
 
 COQ_PRE = ("Definition g (l : list float) (i : nat) : float := nth i l 0%%float.\n"
@@ -233,6 +247,9 @@ def run(ctx):
             states = [rand_state(rng, mo, k) for k in range(2 if quick else 3)]
             pjobs.append({"op": "pipeline", "xml": mo["xml"], "fn": fn, "nprobe": 2 if quick else 3, "seed": rng.randrange(1 << 30), "states": states})
             pmeta.append((mo, fn, states))
+    for kf in KNOWN_F2:
+        pjobs.append({"op": "pipeline", "xml": kf["xml"], "fn": kf["fn"], "nprobe": 3, "seed": 3, "states": kf["states"]})
+        pmeta.append(({"name": kf["name"], "xml": kf["xml"], "zero_norm_state": 0}, kf["fn"], kf["states"]))
     fk = pool.submit(run_mjx, ctx, [{"op": "cyl", "cases": cyl}, {"op": "guards", "cases": guards}], 900)
     nhalf = (len(pjobs) + 1) // 2
     fps = [pool.submit(run_mjx, ctx, pjobs[:nhalf], 3000), pool.submit(run_mjx, ctx, pjobs[nhalf:], 3000)] if len(pjobs) > 2 else \
@@ -352,6 +369,15 @@ def run(ctx):
                         d2 = max(abs(a - b) for ra, rb in zip(rev, fwd) for a, b in zip(ra, rb)) / scale
                         pstats["worst_rev_vs_fd"] = max(pstats["worst_rev_vs_fd"], d1)
                         pstats["worst_fwd_vs_rev"] = max(pstats["worst_fwd_vs_rev"], d2)
+                        if mo.get("zero_norm_state") == si:
+                            # exactly-zero norm argument: KNOWN finding C45-F2 when (and only when) the finite gradient disagrees with FD
+                            pstats["known_f2_replays"] = pstats.get("known_f2_replays", 0) + 1
+                            if d1 > 1e-5:
+                                ctx.violation("impl_violation", {"model": mo["name"], "mjcf": mo["xml"], "fn": "mjx." + fn, "wrt": arg, "state": s},
+                                              expected="jax.jacrev equals central finite differences (relative 1e-5)", observed="relative difference %.3g" % d1,
+                                              theorem="C45_safe_norm_zero", signature={"site": "mjx math.norm", "class": "zero-argument-gradient-dropped"},
+                                              note="fixed replay: an argument of math.norm is exactly zero in this state; the gradient is finite but the term through the norm is dropped")
+                            continue
                         if d1 > 1e-3:
                             bad = ("jax.jacrev vs central finite differences", "relative difference <= 1e-3", d1)
                         elif d2 > 1e-7:
